@@ -84,6 +84,9 @@ def main_inv(it, env, phase):
     if not cfg.update and not cfg.ckpt:
         add("XG_genuine", dq_pairs_forall(run, X, G, lambda a, c, d, e: z3.BoolVal(True),
                                           lambda xx, gg: gg == Vs(ctx.sfcfg.gnum(xx), s)), ("C18",))
+    # --- C06 / C13: the matrices used by the solver are the ones built from the stored history
+    if getattr(ctx, "track_mats", False):
+        add("mats_current", mats_current(it, run, mats, X, G), ("C06", "C13", "C10"))
     # --- C07 / C14 ownership of the live iterate
     # the live iterate is updated in place by the loop: it must not be an array the caller can see (its own input,
     # or an array handed to the callback as part of a state), nor one stored in the history
@@ -91,6 +94,48 @@ def main_inv(it, env, phase):
     add("x_local", run.region.get(x.ref) in ("local", "escaped") and "callback" not in esc
         and x.ref not in run.frozen, ("C07", "C14", "C18"))
     return out
+
+
+def transposed_diff(run, dq):
+    """value of np.diff(np.array(dq), axis=0).T as a z3 term"""
+    from pyvc.lib import mat_term
+    return mat_term(it_dom(run), MatTerm("T", MatTerm("diffstack", dq_snapshot(run, dq))))
+
+
+class _D:
+    pass
+
+
+def it_dom(run):
+    d = _D()
+    d.run = run
+    d.uf_real = None
+    return d
+
+
+def is_initial_mats(run, mats):
+    init = run.ghost.get("init_mats", {}).get(mats.ref)
+    return init is not None and all(mats.f.get(k) is v for k, v in init.items())
+
+
+def mats_current(it, run, mats, X, G):
+    """either the initial (identity) matrices with a single stored point, or S, Y are the transposed row differences
+    of the CURRENT deques (every other field is a function of S, Y: unit BFGS, every_field_rebuilt)"""
+    if is_initial_mats(run, mats):
+        return z3.And(dq_len(run, X) == 1, dq_len(run, G) == 1)
+    S, Y = mats.f.get("S"), mats.f.get("Y")
+    if not (isinstance(S, Arr) and isinstance(Y, Arr)):
+        return z3.BoolVal(False)
+    for arr, dq in ((S, X), (Y, G)):
+        c = run.heap.get(arr.ref)
+        if isinstance(c, MatTerm) and c.kind == "T" and isinstance(c.args[0], MatTerm) and c.args[0].kind == "diffstack" \
+                and snap_equal(c.args[0].args[0], dq_snapshot(run, dq)):
+            continue
+        break
+    else:
+        return z3.And(dq_len(run, X) >= 2)
+    return z3.And(vec_of(it.dom, S) == transposed_diff(run, X), vec_of(it.dom, Y) == transposed_diff(run, G),
+                  dq_len(run, X) >= 2)
 
 
 def main_havoc(it, env):
@@ -116,11 +161,15 @@ def main_havoc(it, env):
     setv("X", X)
     setv("G", G)
     mats = env.get("mats")
-    newm = Obj(mats.cls, run.new_ref())
-    for k in ("S", "Y", "D", "L", "W"):
-        newm.f[k] = fresh_vec(run, "mats_" + k, "local")
-    newm.f["invMfactors"] = (fresh_vec(run, "mats_F0", "local"), fresh_vec(run, "mats_F1", "local"))
-    newm.f["theta"] = Sym(run.fresh("theta", R))
+    if getattr(ctx, "track_mats", False) and run.choose("mats_state", 2) == 0:
+        # the initial (identity) matrices, as created by the real constructor
+        newm = it.call(it.lookup("bfgsmats.LBFGSB_MATRICES"), [env.get("n")], {})
+    else:
+        newm = Obj(mats.cls, run.new_ref())
+        for k in ("S", "Y", "D", "L", "W"):
+            newm.f[k] = fresh_vec(run, "mats_" + k, "local")
+        newm.f["invMfactors"] = (fresh_vec(run, "mats_F0", "local"), fresh_vec(run, "mats_F1", "local"))
+        newm.f["theta"] = Sym(run.fresh("theta", R))
     setv("mats", newm)
     sf = env.get("sf")
     sf_havoc(run, sf, ctx.sfcfg)
@@ -275,13 +324,14 @@ def exit_clauses(run, ctx, env, res, where):
 
 
 # ------------------------------------------------------------------------------------------------ program
-def make_program(cfg, shared, user_may_raise=True):
+def make_program(cfg, shared, user_may_raise=True, track_mats=False):
     def prog(run):
         it, dom = session(run, user_may_raise=user_may_raise)
         install_callee_contracts(it)
         install_sf_method_contracts(it)
         kwargs, ctx = make_params(run, cfg)
         ctx.s = None
+        ctx.track_mats = track_mats
         ctx.f_first = None
         ctx.x_start = None
         ctx.sf = None
@@ -295,6 +345,12 @@ def make_program(cfg, shared, user_may_raise=True):
                 ctx.x_start = run.heap[bound["x0"].ref]
                 ctx.f_first = None
         it.observers["scalar_function.prepare_scalar_function"] = obs_prepare
+
+        def obs_mats_init(interp, phase, clo, bound, res):
+            if phase == "post":
+                o = bound["self"]
+                run.ghost.setdefault("init_mats", {})[o.ref] = dict(o.f)
+        it.observers["bfgsmats.LBFGSB_MATRICES.__init__"] = obs_mats_init
 
         def user_scaler(dom_, f, args, kw):
             from contracts.common import user_scaler as base
@@ -447,7 +503,8 @@ def _work(batch_tier):
             r.name, r.props = ob.name, ob.props
             return sel(r)
     for cfg in batch:
-        r = run_program(f"MAIN[{cfg.label()}]", make_program(cfg, shared), keep_smt=keep, filter_obs=flt)
+        r = run_program(f"MAIN[{cfg.label()}]", make_program(cfg, shared, track_mats=want in ("C06", "C13")),
+                        keep_smt=keep, filter_obs=flt)
         rep.merge(r)
     return rep
 
